@@ -173,6 +173,8 @@ def r_normalise(ck: Checker) -> None:
             return prov(e.args[-1], env)
         if isinstance(e, ast.IfExp):
             return prov(e.body, env) | prov(e.orelse, env)
+        if isinstance(e, ast.Attribute) and e.attr == "__supertype__":
+            return {"one-level"} | (prov(e.value, env) - {"hints"})
         if isinstance(e, ast.Attribute) and e.attr == "type" and norm(e.value) == fv:
             return {"raw"}
         if any(isinstance(n, ast.Attribute) and n.attr == "type" and norm(n.value) == fv for n in ast.walk(e)):
@@ -193,6 +195,8 @@ def r_normalise(ck: Checker) -> None:
                     p_ = prov(st.value, env)
                     if "raw" in p_:
                         bad = bad or f"the stored type is read from {fv}.type"
+                    elif "one-level" in p_:
+                        bad = bad or "a NewType is unwrapped one level only (.__supertype__): a NewType of a NewType reaches the classifier unresolved"
                     elif "other" in p_:
                         raise Unsupported(f"get_field_types: stored value {norm(st.value)[:50]} has an unrecognised origin", lp)
     raw = [n for n in walk_body(lp.body) if isinstance(n, ast.Attribute) and n.attr == "type" and norm(n.value) == fv]
